@@ -836,10 +836,13 @@ impl Family for C05 {
     fn required_cover(t: Tier) -> Vec<(&'static str, usize)> {
         match t {
             Tier::Quick => vec![("c05.gamma_table_index", 600), ("c05.delta_table_index", 1500), ("c05.zeta3_table_index", 2500)],
-            // every index of every decoding table, both endiannesses
+            // every index of every decoding table, both endiannesses. For the delta table 31
+            // of the 2048 look-ahead patterns per endianness start a gamma part announcing a
+            // length above 64 bits (>= 6 leading zeros followed by a non-minimal remainder):
+            // they are not the prefix of any in-domain delta code and cannot be read
             Tier::Thorough => vec![
                 ("c05.gamma_table_index", 2 * 512),
-                ("c05.delta_table_index", 2 * 2048),
+                ("c05.delta_table_index", 2 * (2048 - 31)),
                 ("c05.zeta3_table_index", 2 * 4096),
             ],
         }
